@@ -23,12 +23,12 @@ def make(kind):
     if kind == 'ch':
         return univ.Choice(componentType=namedtype.NamedTypes(
             namedtype.NamedType('x', univ.Integer()), namedtype.NamedType('y', itag(1)), namedtype.NamedType('z', itag(2))))
-    return univ.Sequence(componentType=namedtype.NamedTypes(
+    return (univ.Set if kind == 'st' else univ.Sequence)(componentType=namedtype.NamedTypes(
         namedtype.NamedType('a', univ.Integer()), namedtype.OptionalNamedType('b', itag(0)),
         namedtype.DefaultedNamedType('c', itag(1).clone(0))))
 
 
-NAMES = {'ch': ['x', 'y', 'z'], 'sq': ['a', 'b', 'c']}
+NAMES = {'ch': ['x', 'y', 'z'], 'sq': ['a', 'b', 'c'], 'st': ['a', 'b', 'c']}
 
 
 def name_of(kind, i):
@@ -103,8 +103,19 @@ def do(kind, obj, op):
     elif o == 'setbyname':
         obj.setComponentByName(name_of(kind, i), v)
     elif o == 'setbytype':
-        ts = make('ch').componentType[i].asn1Object.tagSet if 0 <= i < 3 else univ.Null.tagSet
+        ts = make(kind).componentType[i].asn1Object.tagSet if 0 <= i < 3 else univ.Null.tagSet
         obj.setComponentByType(ts, v)
+    elif o == 'getbytype':
+        ts = make(kind).componentType[i].asn1Object.tagSet if 0 <= i < 3 else univ.Null.tagSet
+        return val(obj.getComponentByType(ts))
+    elif o == 'peekbytype':
+        ts = make(kind).componentType[i].asn1Object.tagSet if 0 <= i < 3 else univ.Null.tagSet
+        return val(obj.getComponentByType(ts, default=None, instantiate=False))
+    elif o == 'getslice':
+        r = obj[i:v]
+        return len(r) if isinstance(r, list) else NORET
+    elif o in ('setslice0', 'setslice1', 'setslice2'):
+        obj[i:v] = [7, 8][:int(o[-1])]
     elif o == 'setbad':
         obj.setComponentByPosition(i, 'not a number')
     elif o == 'setbadobj':
@@ -198,6 +209,8 @@ def alphabet(kind):
         ops += [('getitem', i, 0) for i in (-1, 0, 1, 2)] + [('peek', i, 0) for i in (0, 1, 2)]
         ops += [('contains', 0, 1), ('count', 0, 1), ('index', 0, 2), ('iter', 0, 0), ('prettyPrint', 0, 0), ('eq', 0, 0),
                 ('encode', 0, 0), ('clone', 0, 0), ('cloneschema', 0, 0)]
+        ops += [('getslice', 0, 2), ('getslice', -2, 99), ('setslice1', 0, 1), ('setslice2', 0, 1), ('setslice0', 0, 1),
+                ('setslice2', 1, 3), ('setslice1', 5, 99), ('setslice2', -1, 99)]
         return ops
     if kind == 'ch':
         ops = [('set', i, 1) for i in (0, 1, 2, 3)] + [('setitem', 1, 2), ('setbyname', 0, 2), ('setbyname', 3, 2),
@@ -213,6 +226,9 @@ def alphabet(kind):
     ops += [('peek', i, 0) for i in (0, 1, 2)] + [('peekbyname', 1, 0), ('peekbyname', 3, 0)]
     ops += [('len', 0, 0), ('contains', 0, 0), ('contains', 3, 0), ('iter', 0, 0), ('keys', 0, 0), ('clear', 0, 0), ('reset', 0, 0),
             ('prettyPrint', 0, 0), ('eq', 0, 0), ('encode', 0, 0), ('clone', 0, 0), ('cloneschema', 0, 0)]
+    if kind == 'st':
+        ops += [('setbytype', i, 3) for i in (0, 1, 2, 3)] + [('getbytype', i, 0) for i in (0, 1, 2, 3)]
+        ops += [('peekbytype', i, 0) for i in (0, 1, 2, 3)]
     return ops
 
 
@@ -250,7 +266,7 @@ def run(ctx):
     rnd = random.Random(ctx.seed)
     with tlc.Scratch('c19') as sc:
         jobs = []
-        for kind in ('so', 'ch', 'sq'):
+        for kind in ('so', 'ch', 'sq', 'st'):
             ops = alphabet(kind)
             L = 3
             hs = list(itertools.product(ops, repeat=L))
@@ -300,7 +316,7 @@ def run(ctx):
             prev = t['ev'][j - 2] if j > 1 else None
             f = {'clause': clause, 'container': t['kind'], 'op': e['o'], 'i': e['i'], 'res': e['res'], 'exc': e['exc'],
                  'prev_isv': prev['isv'] if prev else False, 'prev_len': prev['len'] if prev else 0,
-                 'was_schema': (prev is None) or (not prev['isv'] and prev['len'] == 0 and t['kind'] != 'sq'),
+                 'was_schema': (prev is None) or (not prev['isv'] and prev['len'] == 0 and t['kind'] not in ('sq', 'st')),
                  'in_range': (0 <= (e['i'] if e['i'] >= 0 else (prev['len'] if prev else 0) + e['i']) <= (prev['len'] if prev else 0))
                  if t['kind'] == 'so' else 0 <= e['i'] < 3}
             ops = [(x['o'], x['i'], x['v']) for x in t['ev'][:j]]
@@ -327,8 +343,8 @@ def run(ctx):
             ctx.keys.add((kind,) + tuple(o for o, _, _ in h))
         for t in (traces[1234], traces[-5]):
             ctx.sample({'container': t['kind'], 'events': [{k: e[k] for k in ('o', 'i', 'v', 'res', 'ret', 'isv', 'len', 'el')} for e in t['ev']]})
-    ctx.rule = ('all operation sequences of length 3 over the public API alphabet of SEQUENCE OF (35 ops), CHOICE (28) and '
-                'SEQUENCE (31) + random longer ones; after every call the object is projected (isValue, len, members, DER) '
+    ctx.rule = ('all operation sequences of length 3 over the public API alphabet of SEQUENCE OF (43 ops incl. slice reads and slice '
+                'assignments), CHOICE (28), SEQUENCE (31) and SET (43, incl. tag-addressed set/get/peek) + random longer ones; after every call the object is projected (isValue, len, members, DER) '
                 'and compared with the list/dict/at-most-one machines of spec/Container.tla by spec/Trace_Container.tla; '
                 'plus arithmetic/conversion/comparison probes on valueless scalars of 13 types')
     ctx.exhaustive = True
